@@ -11,7 +11,8 @@
 (* (uasc readChunk/handleOpenSecureChannelRequest), then CreateSession      *)
 (* (server signature over client certificate + nonce), the client's         *)
 (* signature check (client.go CreateSession), ActivateSession with a user   *)
-(* token, the namespace read that ends Connect, and a write and a read.     *)
+(* token, the namespace read that ends Connect, a write and a read, a       *)
+(* second activation of the session and another write and read.             *)
 (* One action per protocol step / critical section of the code.             *)
 (*                                                                          *)
 (* The server side is either the real server (Scripted = FALSE: it always   *)
@@ -228,12 +229,23 @@ Write ==
   /\ node' = 1 /\ ops' = Append(ops, [op |-> "write", res |-> "Good"])
   /\ UNCHANGED <<cfg, up, adv, eps, cli, chan, chanSec, sig, sess, srvSess, state>>
 Read ==
-  /\ state = "Connected" /\ Len(ops) = 1
+  /\ state = "Connected" /\ Len(ops) \in {1, 4}
   /\ ops' = Append(ops, [op |-> "read", res |-> "Good", val |-> node])
   /\ UNCHANGED <<cfg, up, adv, eps, cli, chan, chanSec, sig, sess, srvSess, state, node>>
+\* the session is activated again on the same channel (DetachSession + ActivateSession: what the client's
+\* restoreSession step does after a reconnect, or a change of user): signed over the nonce of the last
+\* ActivateSession response
+Reactivate ==
+  /\ state = "Connected" /\ Len(ops) = 2 /\ sess = "activated"
+  /\ ops' = Append(ops, [op |-> "reactivate", res |-> "Good"])
+  /\ UNCHANGED <<cfg, up, adv, eps, cli, chan, chanSec, sig, sess, srvSess, state, node>>
+Write2 ==
+  /\ state = "Connected" /\ Len(ops) = 3
+  /\ node' = 2 /\ ops' = Append(ops, [op |-> "write", res |-> "Good"])
+  /\ UNCHANGED <<cfg, up, adv, eps, cli, chan, chanSec, sig, sess, srvSess, state>>
 
 Next == SrvStart \/ CliDiscover \/ CliChooseEndpoint \/ CliChooseRaw \/ Opn
-        \/ CreateSession \/ CliVerifySig \/ Activate \/ Write \/ Read
+        \/ CreateSession \/ CliVerifySig \/ Activate \/ Write \/ Read \/ Reactivate \/ Write2
 Spec == Init /\ [][Next]_vars
 
 \* a run is over (explicit, cheap to evaluate; InvTerminalDef ties it to ~ENABLED Next)
@@ -241,7 +253,7 @@ Terminal ==
   \/ chan = "refused"
   \/ cli.intent = "raw" /\ chan = "open"
   \/ sess \in {"error", "panic"}
-  \/ Len(ops) = 2
+  \/ Len(ops) = 5
   \/ up /\ cli.intent = "none" /\ "raw" \notin Intents /\ (adv = {} \/ "endpoint" \notin Intents)
 InvTerminalDef == Terminal <=> ~ENABLED Next
 
@@ -267,7 +279,9 @@ InvBadSigOutcome  == (Terminal /\ sig \in SigClasses \ {"valid"}) =>
 BadSigs == SigClasses \ {"valid"}
 InvInterop == (Terminal /\ cli.intent = "endpoint" /\ sig \notin BadSigs) =>
                  /\ state = "Connected"
-                 /\ ops = <<[op |-> "write", res |-> "Good"], [op |-> "read", res |-> "Good", val |-> 1]>>
+                 /\ ops = <<[op |-> "write", res |-> "Good"], [op |-> "read", res |-> "Good", val |-> 1],
+                           [op |-> "reactivate", res |-> "Good"],
+                           [op |-> "write", res |-> "Good"], [op |-> "read", res |-> "Good", val |-> 2]>>
 
 ---------------------------------------------------------------------------
 \* Rows for the replay harness
